@@ -592,6 +592,9 @@ func (r *UnitRun) applyContractSelf(st *State, callee *Unit, recv *Val, args []V
 	}
 	env2 := &SpecEnv{run: r, st: st, old: pre, bound: bound}
 	for _, c := range callee.Ensures {
+		if c.Opt != "" && !r.unit.Wants[c.Opt] {
+			continue
+		}
 		st.assume(r.specBool(env2, c, "ensures of "+callee.Name))
 	}
 	for _, c := range callee.Trusted {
